@@ -98,6 +98,9 @@ class Run:
         self.timed_out = timed_out
         self.path = path
         self.ended = any("end" in r for r in records[-2:]) if records else False
+        # logical-clock waits / rendezvous that timed out inside the executor (overloaded machine): ordering assumptions of the
+        # scenario are void, so callers that rely on ticks must treat the run as inconclusive
+        self.gave_up = sum(r.get("gave_up", 0) for r in records[-2:] if "end" in r) if records else 0
 
     def steps(self):
         return [r for r in self.records if "i" in r]
